@@ -696,7 +696,9 @@ func drvCgo(r *rand.Rand, n int) [][]Action {
 // header / package comment lists of length 0-3 over text classes, canonical paths incl. quotes and backslashes
 func drvFileComments(r *rand.Rand, n int) [][]Action {
 	texts := []string{"Code generated by x. DO NOT EDIT.", "Package main does things.", "two\nlines", "Package main has paragraphs.\n\nThis is the second one.", "one\n\ntwo\n\nthree", "ends with newline\n", "has } braces {", "x := 1 // nested",
-		"unicode é 日本", "  indented", "Copyright 2024", "a \"quoted\" word", "//raw line comment", "/* raw block */", "#hash"}
+		"unicode é 日本", "  indented", "Copyright 2024", "a \"quoted\" word", "//raw line comment", "/* raw block */", "#hash",
+		// texts that only LOOK like directives (a directive has no space after the slashes; these are comment texts)
+		"go:generate stringer -type=T", "go:build ignore", "go:embed data.txt", "line main.go:10", "export Name", "nolint:all"}
 	canons := []string{"", "", "example.com/canon", "a/b-c.d/e", "with \"quote\"", "back\\slash", "ünï/cødé"}
 	out := [][]Action{}
 	for i := 0; i < n/4+1; i++ {
